@@ -11,7 +11,8 @@ open Generated
 /-- A non-compacting worker whose expiry is disabled (`timeoutRevision = 0`). -/
 def WCfg.Plain (c : WCfg) : Prop := c.compact = false ∧ c.timeout = 0
 
-theorem expireStep_plain {c : WCfg} (hc : c.Plain) (live : Bytes) (r : Rec) : expireStep c live r = none := by
+theorem expireStep_plain {c : WCfg} (hc : c.Plain) (live gone : Bytes) (snap : List Rec) (r : Rec) :
+    expireStep c live gone snap r = none := by
   simp [expireStep, expiry, hc.2]
 
 /-- Normal form of one iteration of a plain worker. -/
